@@ -47,6 +47,11 @@ def case(draw):
         ch0 = desc["chains"][0]
         if len(ch0["seq"]) >= 2:
             ch0["stretch"] = [[draw(st.integers(0, 5)), draw(st.sampled_from([1.5, 1.9, 2.2, 2.4, 2.9]))]]
+            if draw(st.booleans()) and ch0.get("hyd", "none") == "none":
+                # ... and the residue right before the stretched link lacks its carbonyl O (rebuilt from the
+                # peptide frame: the residue after a BREAK must not serve as reference)
+                ch0.pop("drop_spec", None)
+                ch0["drop"] = [[ch0["stretch"][0][0] % (len(ch0["seq"]) - 1), draw(st.sampled_from(["O", "O", "C"]))]]
     ff = draw(st.sampled_from(strat.FFS))
     return dict(part="e2e", desc=desc, ff=ff, opts=list(mode) + e2e.neutral_opts(draw, ff, mode), wild=wild)
 
@@ -113,6 +118,11 @@ def check(case):
             lack = [a for a in tm["atoms"] if topo.heavy(a) and a not in names]
             gap_here = any(any(dist.get(y, 0) > dist.get(a, 0) and y in names for y in hv.get(a, [])) for a in lack)
         suffix = ":interior-gap" if gap_here else ""
+        for gi_, gd_ in ch.get("stretch", []):
+            if gd_ > 1.75 and gi_ % max(len(ch["seq"]) - 1, 1) == i and [i, "C"] in [list(d_) for d_ in ch.get("drop", [])]:
+                # known finding: the backbone-gap test needs the C atom, so a residue that lacks its C
+                # keeps the residue after the break as fitting reference
+                suffix = ":missing-C-before-break"
         pos = "N-term" if i == 0 else ("C-term" if i == len(ch["seq"]) - 1 else "mid")
         # certified clash-free heavy-atom conformation of this residue (input atoms only)
         hv_in = {k: v for k, v in names.items() if topo.heavy(k)}
@@ -163,7 +173,9 @@ def check(case):
                     # the carbonyl oxygen is fitted onto (C, CA, N of the next residue): the PEPTIDE
                     # patch's N+1 pseudo-atom defines that frame, and the supplied link may differ from it
                     nxt = A.inp.get(("chain", ci, i + 1), {}).get("N")
-                    if nxt is not None and "C" in names:
+                    if nxt is not None and "C" in names and geom.dist(names["C"], nxt) < 1.75:
+                        # (beyond the peptide-link cutoff the next residue is a different fragment and
+                        # must not be used as a reference: no allowance)
                         pep = topo.PATCH["PEPTIDE"]["atoms"]["N+1"]
                         ldist = max(ldist, abs(geom.dist(names["C"], nxt) - geom.dist(tmpl["C"], pep)),
                                     0.02 * abs(geom.angle(names["CA"], names["C"], nxt) - geom.angle(tmpl["CA"], tmpl["C"], pep)) if "CA" in names else 0.0)  # fmt: skip
